@@ -904,17 +904,50 @@ func c14AppendsTo(f *ssa.Function, v ssa.Value) []*ssa.Call {
 	return out
 }
 
+// c14ProxySortKind: "ProxySort" / "ProxyStable" when c calls that function of internal/sortx, else "".
+func c14ProxySortKind(c ssa.CallInstruction) string {
+	name := fw.CalleeName(c)
+	for _, k := range []string{"ProxySort", "ProxyStable"} {
+		if strings.HasSuffix(name, "/internal/sortx."+k) {
+			return k
+		}
+	}
+	return ""
+}
+
+// c14StableImpl: sortx.ProxyStable is implemented with a stable standard-library sort.
+func c14StableImpl(cx *c14Ctx, ru *fw.Rule) {
+	f := cx.p.Fn("internal/sortx.ProxyStable")
+	if f == nil {
+		ru.Undecided("sortx.ProxyStable|stable-impl", "", "internal/sortx.ProxyStable not found")
+		return
+	}
+	stable, unstable := false, false
+	for _, c := range fw.CallsIn(f) {
+		switch fw.CalleeName(c) {
+		case "sort.Stable", "sort.SliceStable", "slices.SortStableFunc":
+			stable = true
+		case "sort.Sort", "sort.Slice", "slices.SortFunc", "slices.Sort":
+			unstable = true
+		}
+	}
+	ru.Check(stable && !unstable, "sortx.ProxyStable|stable-impl", cx.p.Rel(f.Pos()), "calls sort.Stable", "sortx.ProxyStable does not sort with a stable standard-library sort (sort.Stable / SliceStable / SortStableFunc)")
+}
+
 func c14SeqExtra(cx *c14Ctx, ru *fw.Rule, f *ssa.Function, seqBlocks map[*ssa.BasicBlock]bool, seqArms []*ssa.BasicBlock) {
 	p := cx.p
 	fn := fw.ShortFn(f)
+	c14StableImpl(cx, ru)
 	// lock-step: the key slice and the sorted slice of every ProxySort grow together
 	nSort := 0
 	for _, ci := range fw.CallsIn(f) {
 		c, ok := ci.(*ssa.Call)
-		if !ok || !strings.HasSuffix(fw.CalleeName(c), "/internal/sortx.ProxySort") && !strings.HasSuffix(fw.CalleeName(c), "/internal/sortx.ProxyStable") || len(c.Call.Args) != 3 {
+		if !ok || c14ProxySortKind(c) == "" || len(c.Call.Args) != 3 {
 			continue
 		}
 		nSort++
+		ru.Check(c14ProxySortKind(c) == "ProxyStable", fmt.Sprintf("%s|stable#%d", fn, nSort), p.Rel(c.Pos()), "stable sort: equal keys keep their order",
+			"the siblings in "+fn+" are ordered with the unstable sortx.ProxySort: elements with equal keys (the elements of an array under one name, children without #seq) come out in an arbitrary order, array order does not survive to_xml")
 		per := map[*ssa.BasicBlock][2]int{}
 		for _, a := range c14AppendsTo(f, c.Call.Args[0]) {
 			x := per[a.Block()]
